@@ -257,42 +257,101 @@ func tagBoundaryRule(r *Run, rule string, m *lexerModel) {
 	} else {
 		r.Bad(rule, pm.blockParse.Name(), "tag delimiters inside a block", w.Pos(pm.blockParse.Decl.Pos()), "the block parser must skip both '<%' and '%>' so that a block may be split over several tags")
 	}
-	// statement parser: case S_START: advance; return parseStatement()
-	okStmt := false
-	inspectBody(pm.stmtParse.Decl.Body, false, func(n ast.Node) bool {
-		cc, ok := n.(*ast.CaseClause)
-		if !ok {
-			return true
+	// statement parser: a '<%' in statement position is stepped over and the statement behind it is parsed
+	startTagTransparentSSA(r, rule, pm)
+	// program loop: blank statements dropped
+	blankStatementsRuleSSA(r, rule, pm)
+}
+
+// startTagTransparentSSA: on every path of the statement parser on which the current token was found to
+// be '<%', the first thing that happens is one advance of the token cursor, and then the statement is
+// parsed afresh: by a call of the statement parser itself whose result is returned, or by going round
+// the loop that made the test.
+func startTagTransparentSSA(r *Run, rule string, pm *parserModel) {
+	w := r.W
+	ps := w.parserSSA()
+	fn := w.SSAFunc(pm.stmtParse)
+	if ps == nil || fn == nil {
+		r.Lost(rule, "statement parser (SSA)")
+		return
+	}
+	paths, ok := walkPathsUnrolled(fn, nil, nil, 20000)
+	if !ok {
+		r.Lost(rule, "paths of the statement parser")
+		return
+	}
+	nOK, bad := 0, ""
+	for _, p := range paths {
+		at := -1
+		for di, d := range p.decisions {
+			if tok, which, positive, ok := ps.tokenTest(p, d.cond); ok && tok == "<%" && which == "cur" && d.truth == positive {
+				at = di
+				break
+			}
 		}
-		for _, e := range cc.List {
-			if s, ok := constString(pm.info, e); ok && s == "<%" {
-				adv, rec := false, false
-				for _, st := range cc.Body {
-					switch x := st.(type) {
-					case *ast.ExprStmt:
-						if _, ok := pm.isCallOf(x.X, pm.advance); ok {
-							adv = true
-						}
-					case *ast.ReturnStmt:
-						if len(x.Results) == 1 {
-							if _, ok := pm.isCallOf(x.Results[0], pm.stmtParse); ok && adv {
-								rec = true
-							}
+		if at < 0 {
+			continue
+		}
+		// events after that decision
+		var after []ssa.Instruction
+		firstEv := len(p.events)
+		for ei := range p.events {
+			if p.evDecided[ei] > at {
+				firstEv = ei
+				break
+			}
+		}
+		for ei := firstEv; ei < len(p.events); ei++ {
+			if c, ok := p.events[ei].(*ssa.Call); ok {
+				if _, isB := c.Call.Value.(*ssa.Builtin); !isB {
+					after = append(after, c)
+				}
+			}
+		}
+		if len(after) == 0 {
+			bad = "the '<%' is not stepped over"
+			continue
+		}
+		if c := after[0].(*ssa.Call); c.Call.StaticCallee() != ps.next {
+			bad = "something else than one advance of the cursor follows the '<%'"
+			continue
+		}
+		reparsed := false
+		if len(after) > 1 {
+			if c := after[1].(*ssa.Call); c.Call.StaticCallee() == fn && p.end == "return" && len(p.results) == 1 && p.resolve(p.results[0]) == ssa.Value(c) {
+				reparsed = true
+			}
+		}
+		for _, mk := range p.marks {
+			if isLoopHeader(mk.block) && mk.nDecisions > at && mk.fromDecisions <= at {
+				// the loop that tested for '<%' goes round: what was consumed in between is exactly the one advance
+				n := 0
+				for ei := firstEv; ei < mk.nEvents && ei < len(p.events); ei++ {
+					if c, ok := p.events[ei].(*ssa.Call); ok {
+						if _, isB := c.Call.Value.(*ssa.Builtin); !isB {
+							n++
 						}
 					}
 				}
-				okStmt = adv && rec
+				if n == 1 {
+					reparsed = true
+				}
 			}
 		}
-		return true
-	})
-	if okStmt {
-		r.Ok(rule, pm.stmtParse.Name(), "case S_START: advance; re-parse", w.Pos(pm.stmtParse.Decl.Pos()), "a '<%' in statement position is transparent")
-	} else {
-		r.Bad(rule, pm.stmtParse.Name(), "S_START in statement position", w.Pos(pm.stmtParse.Decl.Pos()), "the statement parser must step over '<%' and parse the statement that follows")
+		if reparsed {
+			nOK++
+		} else {
+			bad = "after stepping over the '<%' the statement behind it is not parsed by the same dispatch"
+		}
 	}
-	// program loop: blank statements dropped
-	blankStatementsRuleSSA(r, rule, pm)
+	switch {
+	case bad != "":
+		r.Bad(rule, pm.stmtParse.Name(), "S_START in statement position", w.Pos(pm.stmtParse.Decl.Pos()), "the statement parser must step over '<%' and parse the statement that follows: "+bad)
+	case nOK == 0:
+		r.Bad(rule, pm.stmtParse.Name(), "S_START in statement position", w.Pos(pm.stmtParse.Decl.Pos()), "the statement parser must step over '<%' and parse the statement that follows")
+	default:
+		r.Ok(rule, pm.stmtParse.Name(), "case S_START: advance; re-parse", w.Pos(pm.stmtParse.Decl.Pos()), "a '<%' in statement position is transparent")
+	}
 }
 
 // blankStatementsRuleSSA: on every path of the program loop that appends a
